@@ -320,6 +320,16 @@ func opensOutput(l string, sc scenario) bool {
 	return strings.Contains(l, "O_WRONLY") || strings.Contains(l, "O_RDWR") || strings.Contains(l, "O_CREAT")
 }
 
+type point struct {
+	name string
+	k    int
+}
+
+// afterRename: per (scenario, destination state) the file-system calls the reference run
+// makes after the destination has been renamed into place. On a tree that commits last
+// there are next to none; every one of them is a crash point worth trying in every run.
+var afterRename = map[string][]point{}
+
 // candidates: k values worth injecting for a syscall, from an uninjected reference run.
 func candidates(sc scenario, preexist bool) map[string][]int {
 	counter++
@@ -328,6 +338,8 @@ func candidates(sc scenario, preexist bool) map[string][]int {
 	defer os.RemoveAll(dir)
 	res, _, _ := runOnce(dir, sc, preexist, "")
 	perThread := map[string]map[string]int{} // pid -> syscall -> count
+	renamed := false
+	delete(afterRename, sc.Name+fmt.Sprint(preexist))
 	out := map[string][]int{}
 	seen := map[string]map[int]bool{}
 	tmp := false
@@ -343,6 +355,16 @@ func candidates(sc scenario, preexist bool) map[string][]int {
 		perThread[pid][sc2]++
 		if sc2 == "openat" && opensOutput(l, sc) {
 			tmp = true
+		}
+		if renamed && len(afterRename[sc.Name+fmt.Sprint(preexist)]) < 16 {
+			for _, n := range injectable {
+				if n == sc2 {
+					afterRename[sc.Name+fmt.Sprint(preexist)] = append(afterRename[sc.Name+fmt.Sprint(preexist)], point{sc2, perThread[pid][sc2]})
+				}
+			}
+		}
+		if strings.HasPrefix(sc2, "rename") && strings.Contains(l, "/"+sc.Out) {
+			renamed = true
 		}
 		if tmp {
 			// this call, and the one after it, are output-phase boundaries for this thread
@@ -380,7 +402,7 @@ func TestC13_Completion(t *testing.T) {
 
 func TestC13_CrashPoints(t *testing.T) {
 	thorough := evid.Thorough()
-	budget := evid.EnvInt("VERIF_C13_RUNS", 60)
+	budget := evid.EnvInt("VERIF_C13_RUNS", 160)
 	type pair struct {
 		sc  scenario
 		pre bool
@@ -423,6 +445,15 @@ func TestC13_CrashPoints(t *testing.T) {
 		rec.Set("injected_runs", covered)
 		rec.Set("distinct_output_phase_boundaries_hit", len(boundariesHit))
 		return
+	}
+	// every call made after the rename into place (a handful at most on a tree that commits last)
+	for _, p := range pairs {
+		get(p)
+		for _, pt := range afterRename[p.sc.Name+fmt.Sprint(p.pre)] {
+			if msg, cd := check(p.sc, p.pre, pt.name, pt.k); msg != "" {
+				report(msg, cd)
+			}
+		}
 	}
 	runs := 0
 	// A violation depends on which thread the injected call lands on, so rapid cannot
